@@ -58,7 +58,35 @@ def ensure_playback_file():
             open(p, "w").write("// playback tests are written here by the runner when a harness fails\n")
 
 
-def run_harnesses(repo, crate, names, timeout_s=900, jobs=4, playback=False, extra_args=(), tag="run", features=None):
+def compute_unwindset(repo, crate, names, rules, features=None, log=None):
+    """Per-loop unwinding (DESIGN 2.2): codegen only, list CBMC's loop ids, bound each loop whose
+    function/file text matches a rule. Returns 'id:k,id:k' (possibly empty)."""
+    import glob
+    tdir = os.path.join(BUILD, "kani", crate)
+    cmd = ["cargo", "kani", "-p", crate, "--target-dir", tdir, "-Z", "stubbing", "-Z", "function-contracts",
+           "-Z", "unstable-options", "--only-codegen"]
+    if features: cmd += ["--features", features]
+    for n in names: cmd += ["--harness", n]
+    p = subprocess.run(cmd, cwd=repo, env=_env(), capture_output=True, text=True)
+    if log: log.write("$ " + " ".join(cmd) + "\n" + p.stdout[-2000:] + p.stderr[-3000:])
+    ids = {}
+    for n in names:
+        files = glob.glob(os.path.join(tdir, "kani", "*", "debug", "build", crate, "*", "out", "*%d%s.out" % (len(n), n)))
+        files += glob.glob(os.path.join(tdir, "kani", "*", "debug", "deps", "*%d%s.out" % (len(n), n)))
+        if not files: continue
+        f = max(files, key=os.path.getmtime)
+        q = subprocess.run(["cbmc", "--show-loops", f], capture_output=True, text=True)
+        for m in re.finditer(r"^Loop (\S+):\n\s+file (\S+) line (\d+)(?: column \d+)? function (.*)$", q.stdout, re.M):
+            lid, file_, line, fn = m.group(1), m.group(2), m.group(3), m.group(4)
+            text = "%s %s:%s" % (fn, file_, line)
+            for rx, k in rules:
+                if re.search(rx, text):
+                    ids[lid] = max(ids.get(lid, 0), k) if False else k
+                    break
+    return ",".join("%s:%d" % (a, b) for a, b in sorted(ids.items()))
+
+
+def run_harnesses(repo, crate, names, timeout_s=900, jobs=4, playback=False, extra_args=(), tag="run", features=None, unwind_rules=None):
     """names: harness function names (matched exactly on the last path segment).
     Returns dict name -> HarnessResult, plus raw log path."""
     ensure_playback_file()
@@ -84,6 +112,10 @@ def run_harnesses(repo, crate, names, timeout_s=900, jobs=4, playback=False, ext
     for n in names:
         cmd += ["--harness", n]
     cmd += list(extra_args)
+    if unwind_rules:
+        uws = compute_unwindset(repo, crate, names, unwind_rules, features)
+        if uws:
+            cmd += ["--cbmc-args", "--unwindset", uws]
     t0 = time.time()
     overall = timeout_s * ((len(names) + jobs - 1) // max(1, jobs)) + 600
     with open(logp, "w") as lf:
@@ -108,7 +140,7 @@ def run_harnesses(repo, crate, names, timeout_s=900, jobs=4, playback=False, ext
         except ValueError: data = None
     by_name = {}
     if data:
-        stats = {c["harness_id"]: c.get("cbmc_stats", {}) for c in data.get("cbmc", [])}
+        stats = {c["harness_id"]: (c.get("cbmc_stats") or {}) for c in data.get("cbmc", [])}
         errs = {e["harness_id"]: e for e in data.get("error_details", [])}
         for r in data.get("verification_results", {}).get("results", []):
             hid = r["harness_id"]
@@ -118,7 +150,7 @@ def run_harnesses(repo, crate, names, timeout_s=900, jobs=4, playback=False, ext
             by_name[short] = True
             hr.pretty = hid
             hr.time_s = r.get("duration_ms", 0) / 1000.0
-            st = stats.get(hid, {})
+            st = stats.get(hid) or {}
             hr.symex_s, hr.solver_s = st.get("runtime_symex_s"), st.get("runtime_solver_s")
             checks = r.get("checks", [])
             hr.checks_total = len([c for c in checks if c.get("category") != "cover"])
